@@ -65,7 +65,9 @@ ScaledOut(a, b, k) ==    \* b = outputs at k times the density of a
 RelClause(e) ==
   IF IsNoneOut(e.a) \/ IsNoneOut(e.b) THEN (IF IsNoneOut(e.a) /\ IsNoneOut(e.b) THEN "ok" ELSE "RelationBothDefined")
   ELSE IF ~AllNum(e.a) \/ ~AllNum(e.b) THEN "OutputsAreNumbers"
-  ELSE IF e.rel = "density" THEN (IF ScaledOut(e.a, e.b, e.k) THEN "ok" ELSE "DensityScaling")
+  ELSE IF e.rel = "density" THEN (IF ~ScaledOut(e.a, e.b, e.k) THEN "DensityScaling"
+                                  ELSE IF "again" \in DOMAIN e /\ ~IsNoneOut(e.again) /\ ~SameOut(e.a, e.again, -13) THEN "SameCallSameResult"
+                                  ELSE "ok")
   ELSE IF e.rel \in {"cell", "regroup", "permute"} THEN (IF SameOut(e.a, e.b, -10) THEN "ok" ELSE "CompositionInvariance:" \o e.rel)
   ELSE IF e.rel = "energy" THEN (IF SameOut(e.a, e.b, -11) THEN "ok" ELSE "EnergyEqualsWavelength")
   ELSE IF e.rel = "vector" THEN (IF SameOut(e.a, e.b, -12) THEN "ok" ELSE "VectorIsPointwise")
@@ -169,7 +171,9 @@ D2OClause(e) ==
           ELSE "ok"
 Clause(e) ==
   CASE e.ev = "d2o" -> D2OClause(e)
-    [] e.ev = "scat" -> IF ~LamOK(e) THEN "WavelengthWitness" ELSE ScatClause(e.ps, Rho(e), e.lam, e.out)
+    [] e.ev = "scat" -> IF ~LamOK(e) THEN "WavelengthWitness"
+                        ELSE IF "argkept" \in DOMAIN e /\ ~e.argkept THEN "ArgumentFormulaUnchanged"      \* a density keyword is not written into the caller's Formula
+                        ELSE ScatClause(e.ps, Rho(e), e.lam, e.out)
     [] e.ev = "rel" -> RelClause(e)
     [] e.ev = "conv" -> ConvClause(e)
     [] e.ev = "anchor" -> AnchorClause(e)
